@@ -16,6 +16,7 @@ import importlib
 import inspect
 import typing as t
 
+from .. import anchors
 from ..cfg import CFG, Node, cfg_of
 from ..model import AnalysisError, FuncInfo, Model, unparse
 from ..report import RuleResult
@@ -603,7 +604,7 @@ class Interp:
                 st = n.ast
                 if n.id not in iters:
                     itv = self.ev(st.iter, env)   # type: ignore[attr-defined]
-                    if isinstance(itv, Marker) and itv.name in ('handlers', 'pane.convert._GLOBAL_HANDLERS'):
+                    if isinstance(itv, Marker) and itv.name in ('handlers', anchors.global_handlers(self.model)):
                         iters[n.id] = []          # no call-level handlers; global handlers answer NotImplemented
                     elif isinstance(itv, tuple):
                         iters[n.id] = list(itv)
@@ -840,9 +841,9 @@ def classify_landmark(model: Model, func: FuncInfo, n: Node) -> t.Optional[str]:
         q = model.resolve(n.ast.iter, func.module, func)  # type: ignore[attr-defined]
         if len(func.params) > 1 and s == func.params[1]:
             return 'call-level handlers'
-        if q == 'pane.convert._GLOBAL_HANDLERS':
+        if q == anchors.global_handlers(model):
             return 'global handlers'
-        if '_BASIC_CONVERTERS' in s:
+        if anchors.short(anchors.scalar_table(model)) in s:
             return 'scalar-subclass delegate'
         return None
     if n.kind != 'cond':
@@ -863,9 +864,9 @@ def classify_landmark(model: Model, func: FuncInfo, n: Node) -> t.Optional[str]:
         if 'builtins.dict' in names or 'typing.Mapping' in names or 'collections.abc.Mapping' in names:
             return 'mapping'
     if ' in ' in s and isinstance(n.ast, ast.Compare):
-        if 'pane.converters._BASIC_CONVERTERS' in names:
+        if anchors.scalar_table(model) in names:
             return 'scalar table'
-        if 'pane.converters._BASIC_WITH_ARGS' in names:
+        if anchors.args_table(model) in names:
             return 'args table'
     return None
 
